@@ -659,7 +659,32 @@ func resendRules(r *Report, rule string, strict bool) {
 		if len(starts) != 1 {
 			continue
 		}
+		storeIsQueueAppend := func(in ssa.Instruction) bool {
+			st, ok := in.(*ssa.Store)
+			if !ok {
+				return false
+			}
+			t, f, _, isf := FieldRef(st.Addr)
+			if !isf || (t != "rueidis.retry" && t != "rueidis.retrycache") || (f != "commands" && f != "cAskings") {
+				return false
+			}
+			c, isc := st.Val.(*ssa.Call)
+			return isc && CalleeName(c) == "builtin.append"
+		}
 		isQueueAppend := func(s Site) bool {
+			// a call of an unexported helper of the package that queues into the batch it is handed
+			if c, isc := s.Instr.(*ssa.Call); isc {
+				if h := c.Call.StaticCallee(); h != nil && h.Blocks != nil && h.Pkg == fn.Pkg && !isExportedName(h.Name()) && h != fn {
+					for _, b := range h.Blocks {
+						for _, in := range b.Instrs {
+							if storeIsQueueAppend(in) {
+								return true
+							}
+						}
+					}
+				}
+				return false
+			}
 			st, ok := s.Instr.(*ssa.Store)
 			if !ok {
 				return false
@@ -684,7 +709,10 @@ func resendRules(r *Report, rule string, strict bool) {
 				tag, why = "", "errConnExpired comparison does not justify queueing for the next round"
 			}
 			counts["queue:"+tag]++
-			_, f, _, _ := FieldRef(at.Instr.(*ssa.Store).Addr)
+			f := "via-helper"
+			if st, isst := at.Instr.(*ssa.Store); isst {
+				_, f, _, _ = FieldRef(st.Addr)
+			}
 			desc := "requeue:" + f
 			if tag == "" {
 				var cs []string
